@@ -287,9 +287,12 @@ func (c *Collection) PullID(ctx context.Context, id string, opts ...ReadOption) 
 	}
 
 	send := make(chan *ValueChange)
+	// subscribe before returning, as Pull does: a removal of the item right after
+	// PullID returns must reach (and end) this subscription
+	changes := c.Pull(ctx, opts...)
 	go func() {
 		defer close(send)
-		for change := range c.Pull(ctx, opts...) {
+		for change := range changes {
 			if change.Id != id {
 				continue
 			}
